@@ -42,6 +42,12 @@ impl AnyWriter {
             (AnyWriter::Int(w), Mirror::Int(v)) => match op {
                 "push" => { let x = set_to_u64(&c["v"]); w.push(x); v.push(x); "ok" },
                 "extend" => { let xs: Vec<u64> = c["vs"].as_array().unwrap().iter().map(set_to_u64).collect(); w.extend(xs.clone()); v.extend(xs); "ok" },
+                "push_many" => {
+                    let n = c["n"].as_u64().unwrap() as usize;
+                    let mut x = c["seed"].as_u64().unwrap_or(1);
+                    for _ in 0..n { x = x.wrapping_mul(6364136223846793005).wrapping_add(1442695040888963407); w.push(x); v.push(x); }
+                    "ok"
+                },
                 "close" => if w.close().is_ok() { "ok" } else { "err" },
                 _ => panic!("TOOL-ERROR: unknown int writer call {}", op),
             },
@@ -122,6 +128,14 @@ pub fn record_writer(seed: u64, thorough: bool, path: &str) -> Value {
             pushes += 1;
         }
         let _ = bits;
+        // with the default 8 MiB buffer a flush needs more than a megabyte of data: bulk pushes
+        if cfg.get("default_buf").is_some() && !raw {
+            let n = rng.range(8_500_000, 10_000_000) / width.max(1);     // a little more than one buffer of 8 Mi bits
+            let c = json!({"op": "push_many", "n": n, "seed": rng.next() >> 40});
+            let res = w.call(&mut m, &c);
+            out.push(json!({"e": "w_call", "c": c, "res": res, "obs": w.observe()}));
+            pushes += n;
+        }
         let ending = ["close", "close_twice", "drop"][rng.below(3)];
         if ending != "drop" {
             let res = w.call(&mut m, &json!({"op": "close"}));
@@ -136,8 +150,8 @@ pub fn record_writer(seed: u64, thorough: bool, path: &str) -> Value {
         let _ = std::fs::remove_file(&fname);
         let mb = m.bytes();
         let content = m.content(&cfg["kind"], &cfg["width"]);
-        out.push(json!({"e": "w_end", "ending": ending, "file_eq_vector": file == mb, "file_bytes": file.len(), "content_len": content["len"], "content_ones": if content["ones"].as_array().unwrap().len() <= 3000 { content["ones"].clone() } else { json!([]) },
-                        "ones_logged": content["ones"].as_array().unwrap().len() <= 3000}));
+        out.push(json!({"e": "w_end", "ending": ending, "file_eq_vector": file == mb, "file_bytes": file.len(), "content_len": content["len"], "content_ones": if content["ones"].as_array().unwrap().len() <= 3000 && cfg.get("default_buf").is_none() { content["ones"].clone() } else { json!([]) },
+                        "ones_logged": content["ones"].as_array().unwrap().len() <= 3000 && cfg.get("default_buf").is_none()}));
     }
     out.write(path);
     json!({"writers": runs, "queries": pushes, "events": out.lines.len(), "sample": serde_json::from_str::<Value>(&out.lines[1]).unwrap()})
